@@ -55,9 +55,18 @@ type rcase struct {
 	Pct         uint64    `json:"pct"`
 	MaxColl     uint64    `json:"max_coll"`
 	Return      *outSpec  `json:"return"`
+	Shape       *shape    `json:"shape,omitempty"` // non-collateral parts; nil = one input, one output
 	// observations
 	TxHex   string   `json:"tx_hex,omitempty"`
-	Results []string `json:"results,omitempty"` // per kind: ok / reject / err / absent
+	Results []string `json:"results,omitempty"`        // per kind, whole era rule list through common.VerifyTransaction: ok / reject / err
+	Direct  []string `json:"results_direct,omitempty"` // per kind, rule function(s) called directly
+}
+
+func (rc rcase) shape() shape {
+	if rc.Shape == nil {
+		return defaultShape
+	}
+	return *rc.Shape
 }
 
 var kinds = []string{"NoCollateralInputs", "InsufficientCollateral", "CollateralContainsNonAda", "TooManyCollateralInputs"}
@@ -147,7 +156,7 @@ func redeemersItem(rc rcase) *vh.Item {
 }
 
 func buildTx(rc rcase) []byte {
-	kv := baseBody(rc.Era, make([]byte, 32), rc.Fee)
+	kv := shapedBody(rc.Era, rc.shape(), rc.Fee, false)
 	if len(rc.Inputs) > 0 {
 		var ins []*vh.Item
 		for i := range rc.Inputs {
@@ -316,26 +325,29 @@ func observe(rc *rcase) (coq string, err error) {
 		fee = new(big.Int)
 	}
 	pp := c32Pparams(*rc)
-	byKind := make([][]common.UtxoValidationRuleFunc, len(kinds))
-	for _, r := range eraRules(rc.Era) {
-		_, name, _ := funcInfo(r)
-		if k := kindOf(name); k >= 0 {
-			byKind[k] = append(byKind[k], r)
-		}
-	}
-	rc.Results = nil
-	var res []string
+	rc.Results, rc.Direct = nil, nil
+	coqRes := map[string]string{"ok": "ROk", "reject": "RReject", "err": "RErr"}
+	var res, dres []string
 	for k := range kinds {
-		var verr error
-		if p, v := vh.Recover(func() { verr = common.VerifyTransaction(tx, 0, ls, pp, byKind[k]) }); p {
+		k := k
+		isTarget := func(name string) bool { return kindOf(name) == k }
+		// (1) the clause's rule function(s) called directly
+		var derr error
+		if p, v := vh.Recover(func() { derr = directRules(rc.Era, isTarget, tx, 0, ls, pp) }); p {
 			return "", fmt.Errorf("%s rule panicked: %v", kinds[k], v)
 		}
-		cl := classify(verr)
-		rc.Results = append(rc.Results, cl)
-		res = append(res, map[string]string{"ok": "ROk", "reject": "RReject", "err": "RErr"}[cl])
+		// (2) the whole era rule list through common.VerifyTransaction, same ledger state
+		var verr error
+		if p, v := vh.Recover(func() { verr, _ = projectedVerify(rc.Era, isTarget, tx, 0, ls, pp) }); p {
+			return "", fmt.Errorf("VerifyTransaction (%s) panicked: %v", kinds[k], v)
+		}
+		rc.Direct = append(rc.Direct, classify(derr))
+		rc.Results = append(rc.Results, classify(verr))
+		dres = append(dres, coqRes[classify(derr)])
+		res = append(res, coqRes[classify(verr)])
 	}
-	coq = fmt.Sprintf("(mk_case %s %s %s %s %s %s %s %s)", vh.Str(rc.Era), vh.N(uint64(nred)), vh.List(ins),
-		vh.BigZ(fee), ret, vh.BigZ(new(big.Int).SetUint64(rc.Pct)), vh.BigZ(new(big.Int).SetUint64(rc.MaxColl)), vh.List(res))
+	coq = fmt.Sprintf("(mk_case %s %s %s %s %s %s %s %s %s)", vh.Str(rc.Era), vh.N(uint64(nred)), vh.List(ins),
+		vh.BigZ(fee), ret, vh.BigZ(new(big.Int).SetUint64(rc.Pct)), vh.BigZ(new(big.Int).SetUint64(rc.MaxColl)), vh.List(dres), vh.List(res))
 	return coq, nil
 }
 
@@ -361,10 +373,17 @@ func tokens(o outSpec) map[[2]int]*big.Int {
 }
 
 func monitor(c *vh.Ctx, rc rcase) {
+	monitorOne(c, rc, rc.Results)
+	if strings.Join(rc.Direct, ",") != strings.Join(rc.Results, ",") {
+		monitorOne(c, rc, rc.Direct)
+	}
+}
+
+func monitorOne(c *vh.Ctx, rc rcase, results []string) {
 	if rc.NRedeemers == 0 {
 		return // does not run scripts
 	}
-	for _, r := range rc.Results {
+	for _, r := range results {
 		if r != "ok" {
 			return // rejected by a collateral rule
 		}
@@ -443,7 +462,8 @@ func runCase(c *vh.Ctx, cf *vh.CaseFile, rc rcase) {
 		C, D, E uint64
 		F       any
 		G       int
-	}{rc.Era, rc.Inputs, rc.Fee, rc.Pct, rc.MaxColl, rc.Return, rc.NRedeemers})
+		H       shape
+	}{rc.Era, rc.Inputs, rc.Fee, rc.Pct, rc.MaxColl, rc.Return, rc.NRedeemers, rc.shape()})
 	c.Res.Count(string(b), rc.NRedeemers > 0 && len(rc.Inputs) > 0, class)
 	if rc.NRedeemers > 0 && rc.Fee*rc.Pct%100 != 0 && len(rc.Inputs) > 0 {
 		c.Res.Sample(map[string]any{"era": rc.Era, "fee": rc.Fee, "pct": rc.Pct, "inputs": rc.Inputs, "return": rc.Return, "results": rc.Results})
@@ -585,11 +605,11 @@ func genCase(c *vh.Ctx) rcase {
 }
 
 func run(c *vh.Ctx) error {
-	c.Res.Rule = "Alonzo..Dijkstra transactions built as CBOR (redeemers in array and map form, collateral inputs, collateral return in array and map output form) decoded by the era decoders; collateral UTxOs decoded by the era output decoders and served by a mock ledger state; fee x percentage mostly not divisible by 100; balance at floor/ceil of the share and one either side; tokens: none / empty map / empty policy / zero quantity / 1-3 assets; return exact or perturbed (quantity+1, asset dropped, asset added, zero entry added), sometimes larger than the inputs (negative balance); distinct by the whole generator record; non-trivial = has redeemers and at least one collateral input"
+	c.Res.Rule = "Alonzo..Dijkstra transactions built as CBOR (redeemers in array and map form, collateral inputs, collateral return in array and map output form) decoded by the era decoders; collateral UTxOs decoded by the era output decoders and served by a mock ledger state; fee x percentage mostly not divisible by 100; balance at floor/ceil of the share and one either side; tokens: none / empty map / empty policy / zero quantity / 1-3 assets; return exact or perturbed (quantity+1, asset dropped, asset added, zero entry added), sometimes larger than the inputs (negative balance); the rest of the transaction varied independently (inputs / reference inputs in {0,1,2,7,8,9,16,40}, outputs, certificates); every clause observed twice: its rule function called directly, and the whole era rule list through common.VerifyTransaction with the same ledger state (other rules executed, verdicts discarded); distinct by the whole generator record; non-trivial = has redeemers and at least one collateral input"
 	c.Res.Modelled = []string{
 		"'runs scripts' is taken as 'has at least one redeemer', as the code does",
 		"MultiAsset.Compare is modelled as equality of all per-asset quantities (absent = 0)",
-		"each clause is observed through VerifyTransaction restricted to the entries of the era's real rule list that implement the clause",
+		"each clause is observed by calling the entries of the era's real rule list that implement it, directly and through VerifyTransaction over the whole list (verdicts of the other rules discarded)",
 	}
 	cf := c.NewCaseFile("c32", header)
 	cf.SetShardSize(300)
@@ -625,7 +645,11 @@ func run(c *vh.Ctx) error {
 	}
 	n := c.Pick(1200, 20000)
 	for i := 0; i < n; i++ {
-		runCase(c, cf, genCase(c))
+		rc := genCase(c)
+		sh := genShape(c.Rng)
+		sh.Coll = 0 // collateral inputs are property-relevant here (rc.Inputs)
+		rc.Shape = &sh
+		runCase(c, cf, rc)
 	}
 	cf.Flush()
 	return nil
